@@ -220,6 +220,12 @@ def add_crystal(prog, chk):
                        'when the array is full the element may only be appended after a successful extension of the array object that is appended '
                        'to (extension applied to %s, element appended to %s)' % (ext[0].args[0].canon(), X),
                        why='successful extension of the same array object')
+            amt = it.interval_of(ext[0].args[1], p) if len(ext[0].args) > 1 and ext[0].args[1] is not None else None
+            chk.decide(amt is not None and amt.lo is not None and amt.lo >= 1, 'append-capacity', U, f['name'], inst + ' slots-added', ploc,
+                       'the extension must add at least one slot; it adds %s, which is only known to lie in %s: an array created with capacity 0 is '
+                       '"extended" by nothing and the element is written past the (empty) vector' % (
+                           ext[0].args[1].canon() if len(ext[0].args) > 1 and ext[0].args[1] is not None else '?', amt),
+                       why='extension by %s >= 1 slots' % (amt.lo if amt is not None else '?'))
         else:
             full = it.interval_of(nold - nalloc, p)
             chk.decide(full.excludes_zero() or (full.hi is not None and (full.hi < 0 or (full.hi == 0 and full.his))), 'append-capacity', U, f['name'], inst, ploc,
@@ -505,8 +511,63 @@ def truncators(prog):
     return out
 
 
+def holds_entry_count(f, name):
+    """local `name` is assigned once, before the first loop of f, from <array>->n_crystal: it holds the number of entries on entry"""
+    sts = [x for x in walk(f['body']) if x.get('k') == 'BinaryOperator' and x.get('op') == '=' and strip_casts(x['c'][0]).get('name') == name]
+    decl = [(x, d) for x in walk(f['body']) if x.get('k') == 'DeclStmt' for d in x.get('decls', []) if isinstance(d, dict) and d.get('name') == name and d.get('init')]
+    srcs = [show(x['c'][1]) for x in sts] + [show(d['init']) for _, d in decl]
+    first_loop_ln = min([x['ln'] for x in walk(f['body']) if x.get('k') in ('WhileStmt', 'ForStmt')] or [0])
+    return len(srcs) == 1 and srcs[0].replace('->', '.').endswith('.n_crystal') and all(x['ln'] < first_loop_ln for x in sts) and \
+        all(x['ln'] < first_loop_ln for x, _ in decl)
+
+
+def reader_capacity(prog, chk, f):
+    """every statement of the reader that takes a new slot (n_crystal++ used as a subscript of the vector) is preceded, in the same
+    block, by the "array full" test; analysed as a fragment (the test and the statement, locals unconstrained, A6 on entry): on every
+    path that reaches the slot either n_crystal != n_alloc holds or Crystal_ExtendArray succeeded with at least one new slot."""
+    from xvlib.absint import run_fragment
+    n = 0
+    for blk in [x for x in walk(f['body']) if x.get('k') == 'CompoundStmt']:
+        kids = blk.get('c', [])
+        for j, st_ in enumerate(kids):
+            takes = [x for x in walk(st_) if x.get('k') == 'ArraySubscriptExpr' and show(x['c'][0]).replace('->', '.').endswith('.crystal') and
+                     any(y.get('k') == 'UnaryOperator' and y.get('op') in ('++', 'post++', 'pre++') and 'n_crystal' in show(y) for y in walk(x['c'][1]))]
+            if not takes or st_.get('k') in ('IfStmt', 'ForStmt', 'WhileStmt', 'CompoundStmt'):
+                continue
+            n += 1
+            sloc = '%s:%d' % (U, st_['ln'])
+            guard = kids[j - 1] if j > 0 and kids[j - 1].get('k') == 'IfStmt' else None
+            if guard is None:
+                chk.bad('reader-capacity', U, f['name'], 'slot@%d' % st_['ln'], sloc, 'a new slot is taken without an "array full" test right before it')
+                continue
+            itf, ps = run_fragment(prog, f, {'k': 'CompoundStmt', 'ln': guard['ln'], 'c': [guard, st_]})
+            ok, why = True, set()
+            arr = show(takes[0]['c'][0]).replace('->', '.')[:-len('.crystal')]
+            reach = [p for p in ps if any(e.kind == 'store' and nl(e.lv).endswith('.n_crystal') or (e.kind == 'store' and 'crystal' in nl(e.lv)) for e in p.events)
+                     and p.ret is None]
+            for p in reach:
+                ext = [e for e in p.events if e.kind == 'call' and e.name == 'Crystal_ExtendArray']
+                if ext:
+                    amt = itf.interval_of(ext[-1].args[1], p) if len(ext[-1].args) > 1 and ext[-1].args[1] is not None else None
+                    good = itf.interval_of(ext[-1].result, p).excludes_zero() and amt is not None and amt.lo is not None and amt.lo >= 1
+                    if not good:
+                        ok = False
+                        why.add('after an extension that is not established to have succeeded with at least one new slot (adds %s in %s)' % (
+                            ext[-1].args[1].canon() if len(ext[-1].args) > 1 and ext[-1].args[1] is not None else '?', amt))
+                else:
+                    d = itf.interval_of(Rat.sym(nl(arr) + '.n_crystal') - Rat.sym(nl(arr) + '.n_alloc'), p)
+                    if not (d.excludes_zero() or (d.hi is not None and d.hi < 0)):
+                        ok = False
+                        why.add('without having established n_crystal != n_alloc')
+            chk.decide(ok and bool(reach), 'reader-capacity', U, f['name'], 'slot@%d' % st_['ln'], sloc,
+                       'the reader takes slot n_crystal %s: the entry is written past the vector' % ('; '.join(sorted(why)) or '(no path reaches it)'),
+                       why='room left, or successful extension by >= 1 slots')
+    chk.floor('slots taken by the reader', n, 1)
+
+
 def read_file(prog, chk):
     f = prog.func('Crystal_ReadFile', unit=U)
+    reader_capacity(prog, chk, f)
     it, paths = run_function(prog, f, max_paths=20000)
     loc = '%s:%d' % (U, f['ln'])
     vals = value_paths(it, paths)
@@ -520,35 +581,58 @@ def read_file(prog, chk):
         x = v.canon() if v is not None else arr['name']
         return '(%s)' % x if x.startswith('&') else x
 
-    # (a) volume loop covers every entry, each from its own cell
+    # (a) every crystal read from the file gets the volume of its own cell.  qsort moves entries, so there are exactly two sound forms:
+    #     a loop over the new entries [n_start, n_crystal) BEFORE the sort (entries that were in the array keep what they had), or a loop
+    #     over all entries [0, n_crystal) AFTER it.  A loop over a sub-range after the sort recomputes the wrong entries.
     okvol, seen = True, 0
+    placement = set()
     for p in vals:
         X = obj(p)
         q = [e for e in p.events if e.kind == 'call' and e.name == 'qsort']
         if not q:
             continue
-        after = p.events[p.events.index(q[-1]):]
-        for e in after:
+        qi = p.events.index(q[-1])
+        for ei, e in enumerate(p.events):
             if e.kind == 'iter-end':
                 for lv, v in (e.value or {}).items():
                     m = re.match(r'^(.*)\.crystal\[(\w+@L\d+)\]\.volume$', nl(lv))
                     if m:
                         seen += 1
-                        uc = [c for c in after if c.kind == 'call' and c.name == 'Crystal_UnitCellVolume' and v is not None and c.result is not None and v.equals(c.result)]
+                        placement.add('after' if ei > qi else 'before')
+                        uc = [c for c in p.events if c.kind == 'call' and c.name == 'Crystal_UnitCellVolume' and v is not None and c.result is not None and v.equals(c.result)]
                         okvol = okvol and m.group(1) == nl(X) and bool(uc) and nl(uc[0].args[0].canon()) == '%s.crystal[%s]' % (nl(X), m.group(2))
     vol_loops = []
     for lp in [n for n in walk(f['body']) if n.get('k') == 'ForStmt']:
         if any(c.get('callee') == 'Crystal_UnitCellVolume' for c in calls_in(lp['body'])):
             vol_loops.append(lp)
     rng = False
-    if len(vol_loops) == 1:
+    form = None
+    if len(vol_loops) == 1 and len(placement) == 1:
         lp = vol_loops[0]
         cond = lp.get('cond') or {}
-        rng = zero_init(lp) and cond.get('op') == '<' and show(cond['c'][1]).endswith('n_crystal')
+        upto = cond.get('op') == '<' and show(cond['c'][1]).endswith('n_crystal')
+        start = None
+        for a_ in walk(lp.get('init') or {}):
+            if a_.get('k') == 'BinaryOperator' and a_.get('op') == '=':
+                start = strip_casts(a_['c'][1])
+        # n_start: a local that holds the array's n_crystal on entry and is never written again
+        entry_count = False
+        if start is not None and start.get('k') == 'DeclRefExpr' and start.get('cls') == 'local':
+            sts = [x for x in walk(f['body']) if x.get('k') == 'BinaryOperator' and x.get('op') == '=' and strip_casts(x['c'][0]).get('name') == start['name']]
+            decl = [d for x in walk(f['body']) if x.get('k') == 'DeclStmt' for d in x.get('decls', []) if isinstance(d, dict) and d.get('name') == start['name'] and d.get('init')]
+            srcs = [show(x['c'][1]) for x in sts] + [show(d['init']) for d in decl]
+            first_loop_ln = min([x['ln'] for x in walk(f['body']) if x.get('k') in ('WhileStmt', 'ForStmt')] or [0])
+            entry_count = len(srcs) == 1 and srcs[0].replace('->', '.').endswith('.n_crystal') and all(x['ln'] < first_loop_ln for x in sts) and \
+                all(x['ln'] < first_loop_ln for x in walk(f['body']) if x.get('k') == 'DeclStmt' and any(isinstance(d, dict) and d.get('name') == start['name'] for d in x.get('decls', [])))
+        if 'after' in placement:
+            rng, form = zero_init(lp) and upto, 'all entries after the sort'
+        else:
+            rng, form = upto and (zero_init(lp) or entry_count), 'the new entries before the sort'
     chk.decide(okvol and seen > 0 and rng, 'reader-recomputes-volumes', U, f['name'], 'all-entries', loc,
-               'after sorting, the volume of EVERY entry in [0, n_crystal) must be recomputed from its own cell: qsort moves entries, so a loop '
-               'over a sub-range recomputes the wrong entries and leaves newly read crystals with a stale or uninitialised volume',
-               why='loop over [0, n_crystal) storing Crystal_UnitCellVolume(&crystal[i]) into crystal[i].volume, after the sort')
+               'every crystal read from the file must get the volume of its own cell: a loop over [n_start, n_crystal) before the sort, or over '
+               '[0, n_crystal) after it; qsort moves entries, so a loop over a sub-range after the sort recomputes the wrong entries and leaves newly '
+               'read crystals with a stale or uninitialised volume (found: loop %s the sort, range ok: %s)' % (sorted(placement), rng),
+               why='Crystal_UnitCellVolume(&crystal[i]) stored into crystal[i].volume for %s' % form)
     # (b) sorted before returning success: qsort(X.crystal, current X.n_crystal, ..., compareCrystalStructs) after the last append
     oksort = True
     for p in vals:
